@@ -50,6 +50,21 @@ ROTATING = ["ITRF", "PEF", "TIRF"]
 BUILTIN = START + ROTATING
 LOCAL = ["QSW", "TNW"]
 OMEGA_E = 7.292115e-5  # rad/s
+SISTER = {"VFMoonx2": ("Moon", 2), "VFMarsx3": ("Mars", 3)}   # EME2000 axes, centred on another body
+SCALES = ["UTC", "UTC", "UTC", "TT", "TAI", "GPS", "UT1", "TDB"]
+CONTAINERS = ["array", "array", "list", "int", "f32", "view", "fortran", "from_cov"]
+FORMS = ["cartesian", "cartesian", "keplerian", "keplerian_mean", "equinoctial"]
+# 1 Jan / 1 Jul midnights at which a leap second was inserted, 1975 .. 2016 (UTC)
+LEAPS = [(1976, 1), (1977, 1), (1978, 1), (1979, 1), (1980, 1), (1981, 7), (1982, 7), (1983, 7), (1985, 7), (1988, 1),
+         (1990, 1), (1991, 1), (1992, 7), (1993, 7), (1994, 7), (1996, 1), (1997, 7), (1999, 1), (2006, 1), (2009, 1),
+         (2012, 7), (2015, 7)]
+
+
+def ensure_frames():
+    from .c01 import sister_frame
+
+    for body, k in SISTER.values():
+        sister_frame(body, k)
 
 
 def eop_of(shard):
@@ -83,13 +98,34 @@ def history(draw):
     # 1975-01-01 .. 2016-12-31, microseconds since 1975-01-01
     span = 42 * 365 * 86400 * 10**6
     t = int(u() * span)
-    if draw(st.integers(0, 9)) == 0:
+    kd = draw(st.integers(0, 9))
+    DAY = 86400 * 10**6
+    if kd == 0:
         t = t // (3600 * 10**6) * 3600 * 10**6
+    elif kd in (1, 2):
+        t = t // DAY * DAY + int(u(-90.0, 90.0) * 1e6)                  # next to a UTC midnight
+    elif kd == 3:
+        import datetime as _dt
+
+        y = draw(st.integers(1976, 2016))
+        t = int((_dt.datetime(y, 1, 1) - _dt.datetime(1975, 1, 1)).total_seconds()) * 10**6 + int(u(-90.0, 90.0) * 1e6)
+    elif kd == 4:
+        import datetime as _dt
+
+        y, mth = pick(LEAPS)
+        off = u(130.0, 900.0) * (1 if draw(st.booleans()) else -1)     # outside the documented +-120 s window
+        t = int((_dt.datetime(y, mth, 1) - _dt.datetime(1975, 1, 1)).total_seconds()) * 10**6 + int(off * 1e6)
+    cov["container"] = pick(CONTAINERS)
+    cov["ints"] = [draw(st.integers(-3, 3)) for _ in range(15)] + [draw(st.integers(1, 9)) for _ in range(6)]
+    sister = draw(st.integers(0, 11)) == 0
     def reattach():
         # the same Cov object is carried to another state: other date (up to +-6 h), other position / velocity
         return dict(op="reattach", dt=0.0 if draw(st.integers(0, 9)) == 0 else u(-21600.0, 21600.0),
                     el=draw(go.elements(hyperbolic=False, emax_ell=0.9, rp_range=(1.03, 7.0))),
-                    frame=pick([None, None, None] + START))
+                    frame=None if sister else pick([None, None, None] + START), scale=pick(SCALES))
+
+    def clone():
+        return dict(op="clone", what=pick(["state", "state", "cov"]), how=pick(["copy", "deepcopy", "pickle"]))
 
     ops = []
     if draw(st.integers(0, 7)) == 0:
@@ -100,9 +136,26 @@ def history(draw):
             ops.append(dict(op="cov_to", frame=None, how="str"))   # None = back to the frame the history started in
         ops.append(reattach())
         ops.append(dict(op=pick(["cov_to", "cov_to", "state_to"]), frame=g, how="str"))
+    if sister:
+        # a state about another central body: only its own frame and its local orbital frames exist for it
+        ops = []
+        for _ in range(draw(st.integers(1, 5))):
+            k = draw(st.integers(0, 9))
+            if k < 6:
+                ops.append(dict(op="cov_to", frame=pick(LOCAL + LOCAL + [None]), how="str"))
+            elif k < 8:
+                ops.append(clone())
+            elif k == 8:
+                ops.append(dict(op="copy_cov", frame=pick([None] + LOCAL), adopt=draw(st.booleans())))
+            else:
+                ops.append(reattach())
+        return dict(el=el, t=t, start=pick(sorted(SISTER)), form=pick(FORMS), label=pick(["obj", "obj", "str"]), cov=cov,
+                    ops=ops, scale=pick(SCALES))
     for _ in range(draw(st.integers(1, 5)) - len(ops)):
-        k = draw(st.integers(0, 21))
-        if k >= 20:
+        k = draw(st.integers(0, 24))
+        if k >= 22:
+            ops.append(clone())
+        elif k >= 20:
             ops.append(reattach())
         elif k < 10:
             local = draw(st.integers(0, 9)) < 4
@@ -114,11 +167,45 @@ def history(draw):
             ops.append(dict(op="copy_cov", frame=f, adopt=draw(st.booleans())))
         else:
             ops.append(dict(op="copy_state", frame=pick([None, None, None] + BUILTIN)))
-    return dict(el=el, t=t, start=pick(START), form=pick(["cartesian", "cartesian", "keplerian"]),
-                label=pick(["obj", "obj", "obj", "str"]), cov=cov, ops=ops)
+    return dict(el=el, t=t, start=pick(START), form=pick(FORMS),
+                label=pick(["obj", "obj", "obj", "str"]), cov=cov, ops=ops, scale=pick(SCALES))
 
 
 def make_c0(spec):
+    kind = spec.get("container", "array")
+    if kind == "int":
+        # integer-valued PSD matrix L L^T (what a user types by hand: [[100, 0, ...], ...])
+        L = np.zeros((6, 6))
+        L[np.tril_indices(6, -1)] = spec["ints"][:15]
+        L[np.diag_indices(6)] = spec["ints"][15:]
+        return L @ L.T
+    if kind == "f32":
+        # single precision holds 7 digits: keep the condition number at 1e4
+        spec = dict(spec, exps=[0.4 * x for x in spec["exps"]])
+    C = _make_c0(spec)
+    if kind == "f32":
+        C = C.astype(np.float32).astype(float)      # exactly representable in single precision
+    return C
+
+
+def as_container(C, kind):
+    """the caller's object holding the matrix C"""
+    if kind == "list":
+        return C.tolist()
+    if kind == "int":
+        return [[int(x) for x in row] for row in C]
+    if kind == "f32":
+        return C.astype(np.float32)
+    if kind == "view":
+        big = np.zeros((9, 14))
+        big[1:7, 2:14:2] = C
+        return big[1:7, 2:14:2]                      # non-contiguous view of a larger array
+    if kind == "fortran":
+        return np.asfortranarray(C)
+    return C.copy()
+
+
+def _make_c0(spec):
     q = np.array(spec["q"], float).reshape(6, 6)
     if abs(np.linalg.det(q)) < 1e-6:
         q = q + np.eye(6)
@@ -148,7 +235,7 @@ class Model:
         self.mu = Earth.mu
         el = case["el"]
         self.c = tb.kep2cart(el["a"], el["e"], el["i"], el["raan"], el["argp"], el["nu"], self.mu)
-        self.date = Date(1975, 1, 1) + timedelta(microseconds=case["t"])
+        self.date = Date(1975, 1, 1) + timedelta(microseconds=case["t"])    # the instant, labelled UTC (oracle side)
         self.start = case["start"]
         self.C0 = make_c0(case["cov"])
         self.base = self.start          # frame in which C0 is expressed
@@ -237,7 +324,9 @@ def describe(case, upto):
     out = [f"start {case['start']}"]
     for op in case["ops"][: upto + 1]:
         f = op.get("frame")
-        if op["op"] == "reattach":
+        if op["op"] == "clone":
+            out.append(f"clone({op['how']} of the {op['what']})")
+        elif op["op"] == "reattach":
             out.append(f"reattach(other state, {op['dt']:+.0f} s, {f or 'same frame'})")
         else:
             out.append(f"{op['op']}({f if f is not None else 'first frame'})" + ("+adopt" if op.get("adopt") else ""))
@@ -246,7 +335,7 @@ def describe(case, upto):
 
 def check_cov(model, cov, F, step, what="covariance", worst=None):
     case = model.case
-    C = np.asarray(cov.base if hasattr(cov, "base") and cov.base is not None else cov, float).reshape(6, 6)
+    C = np.array(cov, dtype=float).reshape(6, 6)     # what cov[i, j] shows
     where = describe(case, step)
     got_label = fname(cov.frame)
     if got_label != F:
@@ -306,17 +395,43 @@ def check_history(case):
     from beyond.orbits import StateVector
     from beyond.orbits.cov import Cov
 
+    import copy as _copy
+    import pickle as _pickle
+
+    ensure_frames()
     model = Model(case)
     form = case["form"]
-    orb = StateVector(model.c, model.date, "cartesian", model.start)
+    scale = case.get("scale", "UTC")
+    # same instant, other time-scale label (the oracle keeps the UTC-labelled date)
+    lib_date = model.date if scale == "UTC" else model.date.change_scale(scale)
+    orb = StateVector(model.c, lib_date, "cartesian", model.start)
     if form != "cartesian":
         orb = orb.copy(form=form)
     label = model.start if case["label"] == "str" else orb.frame
-    orb.cov = Cov(orb, model.C0.copy(), label)
+    kind_c = case["cov"].get("container", "array")
+    if kind_c == "from_cov":
+        caller = None
+        orb.cov = Cov(orb, Cov(orb, model.C0.copy(), label), None)      # documented: values may be a Cov
+    else:
+        caller = as_container(model.C0, kind_c)
+        orb.cov = Cov(orb, caller, label)
+        if isinstance(caller, np.ndarray):
+            # the caller's matrix is not kept by reference
+            keep = caller[0, 0]
+            caller[0, 0] = keep + abs(keep) + 1
+            if not np.array_equal(np.array(orb.cov, dtype=float), model.C0):
+                raise Violation("caller-matrix-aliased", f"writing into the matrix given to Cov() ({kind_c}) changed the covariance")
+            caller[0, 0] = keep
     worst = [0.0]
     check_cov(model, orb.cov, model.start, -1, worst=worst)
     cls = [f"start:{model.start}", f"eop:{_eop[0]}",
-           f"label:{case['label']}", f"form:{form}"]
+           f"label:{case['label']}", f"form:{form}", f"scale:{scale}", f"values:{kind_c}"]
+    day_us = 86400 * 10**6
+    off = (case["t"] + day_us // 2) % day_us - day_us // 2
+    if abs(off) <= 90 * 10**6:
+        cls.append("date:utc-midnight")
+    elif abs(off) <= 900 * 10**6:
+        cls.append("date:near-leap-midnight")
     for step, op in enumerate(case["ops"]):
         kind = op["op"]
         F = op.get("frame")
@@ -333,11 +448,12 @@ def check_history(case):
             if start2 in ROTATING:
                 start2 = case["start"]          # states are given in non-rotating frames
             cov = orb.cov
-            kept = np.array(cov.base, float)
+            kept = np.array(cov, dtype=float)
             label = fname(cov.frame)
-            other = StateVector(c2, date2, "cartesian", start2)
+            sc2 = op.get("scale", "UTC")
+            other = StateVector(c2, date2 if sc2 == "UTC" else date2.change_scale(sc2), "cartesian", start2)
             other.cov = cov                      # the very same object, now about another state
-            if other.cov is not cov or not np.array_equal(np.asarray(cov.base, float), kept) or fname(cov.frame) != label:
+            if other.cov is not cov or not np.array_equal(np.array(cov, dtype=float), kept) or fname(cov.frame) != label:
                 raise Violation("reattach-changed", f"attaching the covariance to another state changed it "
                                 f"[{describe(case, step)}]", step=step)
             orb = other
@@ -357,7 +473,7 @@ def check_history(case):
                                 f"[{describe(case, step)}]", step=step)
         elif kind == "state_to":
             follows = model.cov_frame == model.state_frame
-            kept = np.array(orb.cov.base, float)
+            kept = np.array(orb.cov, dtype=float)
             orb.frame = F
             model.state_frame = F
             if follows:
@@ -366,25 +482,25 @@ def check_history(case):
                 if fname(orb.cov.frame) != F:
                     raise Violation("cov-not-following", f"state and covariance were in the same frame; after orb.frame = {F} "
                                     f"the covariance is labelled {fname(orb.cov.frame)} [{describe(case, step)}]", step=step)
-            elif not np.array_equal(np.asarray(orb.cov.base, float), kept):
+            elif not np.array_equal(np.array(orb.cov, dtype=float), kept):
                 raise Violation("cov-dragged", f"covariance in {model.cov_frame} (state was in another frame) changed when the "
                                 f"state went to {F} [{describe(case, step)}]", step=step)
         elif kind == "copy_cov":
             target = F if F is not None else model.cov_frame
             model.note(target)
-            kept = np.array(orb.cov.base, float)
+            kept = np.array(orb.cov, dtype=float)
             kept_label = fname(orb.cov.frame)
             new = orb.cov.copy() if F is None else orb.cov.copy(frame=F)
             saved_cf = model.cov_frame
             model.cov_frame = target
             check_cov(model, new, target, step, what="the copy", worst=worst)
             model.cov_frame = saved_cf
-            if not np.array_equal(np.asarray(orb.cov.base, float), kept) or fname(orb.cov.frame) != kept_label:
+            if not np.array_equal(np.array(orb.cov, dtype=float), kept) or fname(orb.cov.frame) != kept_label:
                 raise Violation("source-changed", f"Cov.copy(frame={F}) changed the covariance it was called on "
                                 f"[{describe(case, step)}]", step=step)
             v = float(new[0, 0])
             new[0, 0] = v + abs(v) + 1.0
-            shared = not np.array_equal(np.asarray(orb.cov.base, float), kept)
+            shared = not np.array_equal(np.array(orb.cov, dtype=float), kept)
             new[0, 0] = v
             if shared:
                 raise Violation("copy-aliased", f"writing into Cov.copy(frame={F}) changed the original [{describe(case, step)}]",
@@ -396,11 +512,11 @@ def check_history(case):
         elif kind == "copy_state":
             old = orb
             kept_state = np.array(old.base, float)
-            kept_cov = np.array(old.cov.base, float)
+            kept_cov = np.array(old.cov, dtype=float)
             kept_labels = (old.frame.name, fname(old.cov.frame))
             new = old.copy() if F is None else old.copy(frame=F)
             if (not np.array_equal(np.asarray(old.base, float), kept_state)
-                    or not np.array_equal(np.asarray(old.cov.base, float), kept_cov)
+                    or not np.array_equal(np.array(old.cov, dtype=float), kept_cov)
                     or (old.frame.name, fname(old.cov.frame)) != kept_labels):
                 raise Violation("source-changed", f"StateVector.copy(frame={F}) changed the object it was called on "
                                 f"[{describe(case, step)}]", step=step)
@@ -415,6 +531,35 @@ def check_history(case):
                     model.note(F)
                     model.cov_frame = F
                 model.state_frame = F
+        elif kind == "clone":
+            fn = {"copy": _copy.copy, "deepcopy": _copy.deepcopy,
+                  "pickle": lambda o: _pickle.loads(_pickle.dumps(o))}[op["how"]]
+            cls.append(f"clone:{op['how']}:{op['what']}")
+            old = orb
+            kept_cov = np.array(old.cov, dtype=float)
+            kept_label = fname(old.cov.frame)
+            if op["what"] == "state":
+                new = fn(old)
+                if new.cov is None:
+                    raise Violation("copy-lost-cov", f"{op['how']} of the state has no covariance [{describe(case, step)}]", step=step)
+                twin_cov = new.cov
+            else:
+                twin_cov = fn(old.cov)
+            # the clone is a value of its own: converting it leaves the original alone
+            probe = "TNW" if kept_label != "TNW" else "QSW"
+            twin_cov.frame = probe
+            if not np.array_equal(np.array(old.cov, dtype=float), kept_cov) or fname(old.cov.frame) != kept_label:
+                raise Violation("copy-aliased", f"converting the {op['how']} clone of the {op['what']} to {probe} changed the "
+                                f"covariance of the original [{describe(case, step)}]", step=step, how=op["how"])
+            saved = model.cov_frame
+            model.note(probe)
+            check_cov(model, twin_cov, probe, step, what=f"the {op['how']} clone, sent to {probe},", worst=worst)
+            twin_cov.frame = kept_label if kept_label in LOCAL else get_frame(kept_label)
+            model.cov_frame = saved
+            if op["what"] == "state":
+                orb = new                       # go on with the clone
+            else:
+                orb.cov = twin_cov
         else:
             raise ValueError(kind)
         check_cov(model, orb.cov, model.cov_frame, step, worst=worst)
@@ -424,6 +569,8 @@ def check_history(case):
     orb.cov.frame = model.base
     model.cov_frame = model.base
     check_cov(model, orb.cov, model.base, n - 1, what="the covariance brought back to the frame it was given in", worst=worst)
+    if isinstance(caller, np.ndarray) and not np.array_equal(np.asarray(caller, float), as_container(make_c0(case["cov"]), kind_c)):
+        raise Violation("caller-matrix-changed", f"the matrix given to Cov() ({kind_c}) was modified by the conversions")
     if model.nt:
         cls.append("nontrivial")
     cls.append(f"len:{n}")
